@@ -21,6 +21,9 @@
 #include "exe.h"
 #include <arpa/inet.h>
 #include <netdb.h>
+#include <algorithm>
+#include <sys/wait.h>
+#include <fcntl.h>
 
 namespace exe {
 
@@ -402,7 +405,7 @@ static int count_sub(const std::string &s, const std::string &sub)
   return n;
 }
 struct Family {
-  std::string       name, prop = "C15";
+  std::string       name, keyname, prop = "C15"; // keyname: family part of violation keys (the deep variant shares the keys of its parent)
   std::vector<Item> alpha;
   unsigned          k = 3, nmodes = 1;
   virtual ~Family() {}
@@ -427,6 +430,7 @@ struct Family {
   virtual bool        strippable(int /*mode*/) const { return true; }
   virtual RangeErrs   ranges(const Obs &o) { return o.rc == ARES_SUCCESS ? check_ranges(o.cfg) : RangeErrs(); }
   virtual std::string describe_mode(int mode) const { return std::to_string(mode); }
+  const std::string  &kn() const { return keyname.empty() ? name : keyname; }
   virtual std::string bound_note() const { return ""; }
   virtual std::string outcome_tag(const Obs &, int /*mode*/) const { return ""; }
   virtual std::string key_mode(int /*mode*/) const { return ""; } // part of a violation key that names the kind of input
@@ -460,14 +464,28 @@ static Obs guarded_run(Family &f, const std::vector<int> &seq, int mode, Ctx &cx
   *leaked = false;
   if (ledger_live() != base) {
     *leaked = true;
+    // signature of what is left: block sizes (one attribution run per distinct signature and process)
+    static std::map<std::string, std::string> known_sites;
+    std::vector<size_t>                       sizes;
+    for (auto &kv : vf::ledger().live) sizes.push_back(kv.second);
+    std::sort(sizes.begin(), sizes.end());
+    std::string sig = std::to_string(sizes.size()) + ":";
+    for (size_t i = 0; i < sizes.size() && i < 8; i++) sig += std::to_string(sizes[i] > 64 ? 64 : sizes[i]) + ",";
     ledger_forget();
-    // attribute: run again with allocation stacks
-    vf::ledger().trace = true;
-    f.run(seq, mode, cx);
-    vf::ledger().trace = false;
-    std::string sites  = ledger_leak_sites();
-    ledger_forget();
-    cx.violation(f.prop + ":leak:" + sites, "blocks allocated through the library allocator are still live after ares_destroy/ares_library state reset; allocation sites: " + sites + "; input " + f.names(seq, mode) + " = " + vf::jesc(f.input_text(seq, mode).substr(0, 300)), cj);
+    cx.rep.count("cases_with_leak");
+    auto it = known_sites.find(sig);
+    if (it == known_sites.end() || cx.replay) {
+      // attribute: run again with allocation stacks
+      vf::ledger().trace = true;
+      f.run(seq, mode, cx);
+      vf::ledger().trace = false;
+      std::string sites  = ledger_leak_sites();
+      ledger_forget();
+      it = known_sites.emplace(sig, sites).first;
+      cx.violation(f.prop + ":leak:" + sites, "blocks allocated through the library allocator are still live after ares_destroy; allocation sites: " + sites + "; input " + f.names(seq, mode) + " = " +
+                                               vf::jesc(f.input_text(seq, mode).substr(0, 300)),
+                   cj);
+    }
   }
   return o;
 }
@@ -508,6 +526,126 @@ static std::vector<int> minimize(std::vector<int> seq, const std::function<bool(
   return seq;
 }
 
+// ------------------------------------------------------ crash containment
+// A case that kills the process (sanitizer report, fatal signal, watchdog) is turned into a violation by the driver,
+// which restarts the shard behind it.  So that a defect reached by thousands of inputs does not cost thousands of
+// restarts, the crashing input is remembered in <out>.crashlist; after the restart it is shrunk to a 1-minimal crashing
+// input (probed in forked children) and every later input that contains it is skipped and counted: violating inputs
+// are not expanded.
+static struct {
+  char path[600];
+  char line[4096];
+} g_crash;
+static void remember_crash()
+{
+  if (!g_crash.path[0] || !g_crash.line[0]) return;
+  FILE *fp = fopen(g_crash.path, "a");
+  if (!fp) return;
+  fputs(g_crash.line, fp);
+  fclose(fp);
+}
+static void exe_death_cb()
+{
+  remember_crash();
+  vf::on_sanitizer_death();
+}
+static void exe_fatal_signal(int sig)
+{
+  remember_crash();
+  vf::on_fatal_signal(sig);
+}
+static void note_current(const std::string &cls, int mode, const std::vector<int> &seq)
+{
+  std::string l = "P|" + cls + "|" + std::to_string(mode) + "|";
+  for (size_t i = 0; i < seq.size(); i++) l += (i ? "," : "") + std::to_string(seq[i]);
+  l += "\n";
+  snprintf(g_crash.line, sizeof g_crash.line, "%s", l.c_str());
+}
+// does running this input kill a process?  (forked child, no crash files)
+static bool probe_crashes(Family &f, const std::vector<int> &seq, int mode, Ctx &cx)
+{
+  fflush(nullptr);
+  pid_t pid = fork();
+  if (pid < 0) return false;
+  if (pid == 0) {
+    __sanitizer_set_death_callback(nullptr);
+    for (int sg : { SIGSEGV, SIGBUS, SIGFPE, SIGILL, SIGABRT, SIGALRM }) signal(sg, SIG_DFL);
+    vf::crashctx().path[0] = 0;
+    vf::partial_writer()   = nullptr;
+    g_crash.path[0]        = 0;
+    int devnull            = open("/dev/null", O_WRONLY);
+    if (devnull >= 0) {
+      dup2(devnull, 1);
+      dup2(devnull, 2);
+    }
+    alarm(30);
+    f.run(seq, mode, cx);
+    _exit(0);
+  }
+  int st = 0;
+  waitpid(pid, &st, 0);
+  return !(WIFEXITED(st) && WEXITSTATUS(st) == 0);
+}
+struct CrashKnown {
+  std::string      cls;
+  std::vector<int> seq;
+};
+static bool contains_seq(const std::vector<int> &seq, const std::vector<int> &sub)
+{
+  size_t j = 0;
+  for (size_t i = 0; i < seq.size() && j < sub.size(); i++)
+    if (seq[i] == sub[j]) j++;
+  return j == sub.size();
+}
+static std::vector<CrashKnown> load_crashlist(Family &f, Ctx &cx)
+{
+  std::vector<CrashKnown> known;
+  if (!g_crash.path[0]) return known;
+  std::string              text = read_file(g_crash.path);
+  std::vector<std::string> keep;
+  size_t                   p = 0;
+  while (p < text.size()) {
+    size_t      e = text.find('\n', p);
+    std::string l = text.substr(p, e == std::string::npos ? std::string::npos : e - p);
+    p             = e == std::string::npos ? text.size() : e + 1;
+    if (l.size() < 4) continue;
+    // kind|class|mode|i,j,k
+    size_t a = l.find('|'), b = l.find('|', a + 1), c = l.find('|', b + 1);
+    if (a == std::string::npos || b == std::string::npos || c == std::string::npos) continue;
+    CrashKnown k;
+    k.cls    = l.substr(a + 1, b - a - 1);
+    int mode = atoi(l.substr(b + 1, c - b - 1).c_str());
+    std::string nums = l.substr(c + 1);
+    size_t      q    = 0;
+    while (q < nums.size()) {
+      k.seq.push_back(atoi(nums.c_str() + q));
+      q = nums.find(',', q);
+      if (q == std::string::npos) break;
+      q++;
+    }
+    if (l[0] == 'P') { // pending: shrink it
+      bool covered = false;
+      for (auto &kn : known) covered = covered || (kn.cls == k.cls && contains_seq(k.seq, kn.seq));
+      if (!covered && probe_crashes(f, k.seq, mode, cx)) {
+        k.seq = minimize(k.seq, [&](const std::vector<int> &t) { return probe_crashes(f, t, mode, cx); });
+        known.push_back(k);
+        std::string m = "M|" + k.cls + "|" + std::to_string(mode) + "|";
+        for (size_t i = 0; i < k.seq.size(); i++) m += (i ? "," : "") + std::to_string(k.seq[i]);
+        keep.push_back(m);
+      }
+    } else {
+      known.push_back(k);
+      keep.push_back(l);
+    }
+  }
+  FILE *fp = fopen(g_crash.path, "w");
+  if (fp) {
+    for (auto &l : keep) fprintf(fp, "%s\n", l.c_str());
+    fclose(fp);
+  }
+  return known;
+}
+
 static int run_family(Family &f, Ctx &cx)
 {
   vf::Report &rep = cx.rep;
@@ -522,6 +660,14 @@ static int run_family(Family &f, Ctx &cx)
     dflt_obs = guarded_run(f, {}, 0, cx, "null", &l);
   }
   std::set<std::string> reported; // keys already minimised in this process
+  std::vector<CrashKnown> crash_known;
+  if (!cx.replay && !cx.args.out.empty() && cx.args.out != "/dev/stdout") {
+    snprintf(g_crash.path, sizeof g_crash.path, "%s.crashlist", cx.args.out.c_str());
+    if (cx.args.resume == 0) unlink(g_crash.path);
+    else crash_known = load_crashlist(f, cx);
+    __sanitizer_set_death_callback(exe_death_cb);
+    for (int sg : { SIGSEGV, SIGBUS, SIGFPE, SIGILL, SIGABRT, SIGALRM }) signal(sg, exe_fatal_signal);
+  }
   std::vector<std::pair<int, std::vector<int>>> known_min; // (mode, 1-minimal input failing the reference oracle)
 
   auto obs_of = [&](const std::vector<int> &s, int mode) -> std::string {
@@ -555,6 +701,7 @@ static int run_family(Family &f, Ctx &cx)
     Obs  o = guarded_run(f, seq, mode, cx, cj, &leaked);
     rep.transitions++;
     cx.ncases++;
+    if (cx.ncases == 1 || cx.ncases % 9973 == 17) rep.sample(cj, 6);
     std::string all = o.all();
     cx.state(all);
     rep.outcome(outcome_class(o, dflt_obs.cfg) + f.outcome_tag(o, mode));
@@ -577,7 +724,7 @@ static int run_family(Family &f, Ctx &cx)
         });
       });
       reported.insert("range:" + field);
-      cx.violation(f.prop + ":range:" + f.name + ":" + field, msg + "; minimal input " + f.names(m, mode) + " = " + vf::jesc(f.input_text(m, mode).substr(0, 400)), case_json(f, idx, m, mode));
+      cx.violation(f.prop + ":range:" + f.kn() + ":" + field, msg + "; minimal input " + f.names(m, mode) + " = " + vf::jesc(f.input_text(m, mode).substr(0, 400)), case_json(f, idx, m, mode));
     }
     // ---- reference
     // (inputs containing no-effect items / whole-input variants are tied to their plain form by the metamorphic
@@ -621,7 +768,7 @@ static int run_family(Family &f, Ctx &cx)
           });
           if (also) return; // reported for the plain mode
         }
-        std::string key = f.prop + ":reference:" + f.name + ":" + (m.empty() ? std::string("(empty)") : plus_names(m, mode)) + f.key_mode(mode) + ":" + mf;
+        std::string key = f.prop + ":reference:" + f.kn() + ":" + (m.empty() ? std::string("(empty)") : plus_names(m, mode)) + f.key_mode(mode) + ":" + mf;
         cx.violation(key, "documented effect missing or wrong: " + mmsg + "; minimal input " + f.names(m, mode) + " (" + f.describe_mode(mode) + ") = " + vf::jesc(f.input_text(m, mode).substr(0, 400)), case_json(f, idx, m, mode));
       }
     } else {
@@ -639,9 +786,29 @@ static int run_family(Family &f, Ctx &cx)
     // which single no-effect item (or the variant) makes the difference?
     std::string      culprit;
     std::vector<int> with = seq, without = st;
-    int              wmode = mode;
+    int              wmode = mode, junk = -1;
+    bool             variant = false;
     if (bm != mode && obs_of(seq, bm) != all) {
       culprit = "variant-" + f.describe_mode(mode);
+      variant = true;
+    } else {
+      for (size_t i = 0; i < seq.size() && culprit.empty(); i++) {
+        if (f.alpha[(size_t)seq[i]].cls != NOEFFECT) continue;
+        std::vector<int> t; // the effective items plus this one no-effect item
+        for (size_t j = 0; j < seq.size(); j++)
+          if (j == i || f.alpha[(size_t)seq[j]].cls != NOEFFECT) t.push_back(seq[j]);
+        if (obs_of(t, bm) != base) {
+          culprit = f.alpha[(size_t)seq[i]].name;
+          junk    = seq[i];
+          with    = t;
+        }
+      }
+      if (culprit.empty()) culprit = "combination";
+    }
+    std::string key = f.prop + ":metamorphic:" + f.kn() + ":" + culprit;
+    if (!cx.replay && reported.count(key)) return;
+    reported.insert(key);
+    if (variant) {
       // smallest sequence for which the variant alone matters
       quietly([&] {
         with = minimize(seq, [&](const std::vector<int> &t) {
@@ -651,31 +818,17 @@ static int run_family(Family &f, Ctx &cx)
         });
       });
       without = with;
-    } else {
-      for (size_t i = 0; i < seq.size() && culprit.empty(); i++) {
-        if (f.alpha[(size_t)seq[i]].cls != NOEFFECT) continue;
-        std::vector<int> t; // the effective items plus this one no-effect item
-        for (size_t j = 0; j < seq.size(); j++)
-          if (j == i || f.alpha[(size_t)seq[j]].cls != NOEFFECT) t.push_back(seq[j]);
-        if (obs_of(t, bm) != base) {
-          culprit  = f.alpha[(size_t)seq[i]].name;
-          int junk = seq[i];
-          quietly([&] {
-            with = minimize(t, [&](const std::vector<int> &u) {
-              bool has = false;
-              for (int x : u) has = has || x == junk;
-              return has && obs_of(u, bm) != obs_of(strip(f, u), bm);
-            });
-          });
-          without = strip(f, with);
-          wmode   = bm;
-        }
-      }
-      if (culprit.empty()) culprit = "combination";
+    } else if (junk >= 0) {
+      quietly([&] {
+        with = minimize(with, [&](const std::vector<int> &u) {
+          bool has = false;
+          for (int x : u) has = has || x == junk;
+          return has && obs_of(u, bm) != obs_of(strip(f, u), bm);
+        });
+      });
+      without = strip(f, with);
+      wmode   = bm;
     }
-    std::string key = f.prop + ":metamorphic:" + f.name + ":" + culprit;
-    if (!cx.replay && reported.count(key)) return;
-    reported.insert(key);
     Obs a, b;
     quietly([&] {
       bool l;
@@ -710,7 +863,7 @@ static int run_family(Family &f, Ctx &cx)
     return cx.failed ? 1 : 0;
   }
 
-  rep.counters["cases_total"] = total;
+  if (cx.args.shard == 0 && cx.args.resume == 0) rep.counters["cases_total"] = total; // counters are summed over shards and restarts
   std::vector<int> seq;
   for (unsigned long long idx = (unsigned long long)cx.args.resume; idx < total; idx++) {
     if (idx % (unsigned long long)cx.args.nshards != (unsigned long long)cx.args.shard) continue;
@@ -721,8 +874,16 @@ static int run_family(Family &f, Ctx &cx)
     }
     int mode;
     f.decode(idx, &seq, &mode);
+    bool skip = false;
+    for (auto &kn : crash_known) skip = skip || (kn.cls == f.key_mode(mode) && contains_seq(seq, kn.seq));
+    if (skip) {
+      rep.count("skipped_contains_crashing_input");
+      continue;
+    }
+    note_current(f.key_mode(mode), mode, seq);
     one(idx, seq, mode);
   }
+  g_crash.line[0] = 0;
   return 0;
 }
 
@@ -1277,6 +1438,12 @@ struct StrItem {
   int         kind; // 0 ok (takes effect), 1 skipped silently (documented), 2 bad (setter must fail, nothing changes), 3 not documented
   std::string canon; // rendering when kind == 0
 };
+static std::string many_sortlist(bool canon)
+{
+  std::string s;
+  for (int i = 1; i <= 40; i++) s += (i > 1 ? " " : "") + ("10.50." + std::to_string(i) + ".0") + (canon || i % 2 ? "/24" : "/255.255.255.0");
+  return s;
+}
 static std::vector<StrItem> sortlist_items()
 {
   return {
@@ -1304,6 +1471,7 @@ static std::vector<StrItem> sortlist_items()
     { "v6-netmask", "2001:db8::/255.255.0.0", 3, "" },       // dotted netmask on an IPv6 address: not documented
     { "semicolon", "10.20.0.0/16;10.30.0.0/16", 3, "" },   // ';' as separator is supported by the code, not documented
     { "empty", "", 1, "" },                                    // two consecutive separators
+    { "many", many_sortlist(false), 0, many_sortlist(true) },  // 40 entries in one go
   };
 }
 static std::vector<StrItem> csv_items()
@@ -1528,7 +1696,10 @@ int run_c15(Ctx &cx)
   unsigned           k   = (unsigned)cx.args.geti("k", cx.args.tier == "thorough" ? 4 : 3);
   Family            *f   = nullptr;
   if (fam == "resolvconf") f = new ResolvFamily("resolvconf", resolv_alphabet(), k);
-  else if (fam == "resolvconf-deep") f = new ResolvFamily("resolvconf-deep", resolv_core_alphabet(), k);
+  else if (fam == "resolvconf-deep") {
+    f          = new ResolvFamily("resolvconf-deep", resolv_core_alphabet(), k);
+    f->keyname = "resolvconf";
+  }
   else if (fam == "otherfiles") f = new OtherFilesFamily(k);
   else if (fam == "hosts") f = new HostsFamily(k);
   else if (fam == "aliases") f = new AliasesFamily(k);
